@@ -32,8 +32,22 @@ REGRESS = [("Python", "def f("), ("Python", "def f()"), ("JavaScript", "const f 
 TIME_LIMIT = 20.0
 
 
+def all_cuts(ctx):
+    """EVERY prefix and EVERY suffix of a few canonical programs per language (the property
+    quantifies over all of them; random cuts alone miss e.g. a cut inside a return annotation)"""
+    out = []
+    for (lang, text, _) in scan_streams.canonical(ctx, ctx.pick(2, 12), "c03cuts"):
+        if len(text) > 1500:
+            text = text[:1500]
+        for i in range(len(text) + 1):
+            out.append((lang, text[:i]))
+        for i in range(1, len(text)):
+            out.append((lang, text[i:]))
+    return out
+
+
 def cases(ctx):
-    out = list(REGRESS) + scan_streams.soups(ctx, ctx.pick(2000, 50000), "c03soup")
+    out = list(REGRESS) + scan_streams.soups(ctx, ctx.pick(2000, 50000), "c03soup") + all_cuts(ctx)
     rnd = ctx.rng("deep")
     for lang in sr.LANGS:
         d = ctx.pick(150, 1200)
@@ -71,12 +85,25 @@ def cli_runs(ctx):
             files.append(rel)
         write_bytes(os.path.join(root, "src", "empty.py"), b"")
         files.append(os.path.join("src", "empty.py"))
+        # well-formed files with a hard-to-maintain and an unmaintainable function: `check` only
+        # formats paths (and exits 1) for functions that are actually listed
+        from gen import programs
+        longs = []
+        for j, lang in enumerate(sr.LANGS):
+            for n in (35, 70):
+                o = programs.generate(lang, rnd, sweep=n)
+                rel = os.path.join("src", "pkg" if j % 2 else "", "long%d_%d.%s" % (j, n, sr.EXT[lang]))
+                write_bytes(os.path.join(root, rel), o.text(True).encode("utf-8"))
+                files.append(rel); longs.append(rel)
         env = dict(os.environ, PYTHONPATH=common.REPO, COLUMNS="200")
         py = sys.executable
         plan = [(root, ["scan", "."]), (other, ["scan", root]), (root, ["check", "."]), (root, ["check", "src"]),
                 (root, ["check", os.path.join(root, "src")]), (other, ["check", root]), (other, ["check", os.path.join(root, "src", "pkg")]),
                 (os.path.join(root, "src"), ["check", "../src/pkg"]), (root, ["check", "--quiet", "src"])]
-        sample = rnd.sample(files, min(len(files), ctx.pick(12, 120)))
+        sample = rnd.sample(files, min(len(files), ctx.pick(12, 120))) + rnd.sample(longs, ctx.pick(4, 14))
+        for rel in rnd.sample(longs, 3):     # every way of naming a file with listed functions
+            plan += [(root, ["check", rel]), (other, ["check", os.path.join(root, rel)]),
+                     (os.path.join(root, "src"), ["check", os.path.relpath(os.path.join(root, rel), os.path.join(root, "src"))])]
         for rel in sample:
             k = rnd.random()
             if k < 0.4:
@@ -94,7 +121,9 @@ def cli_runs(ctx):
             t0 = time.time()
             try:
                 p = subprocess.run([py, "-m", "codelimit"] + args, cwd=cwd, env=env, capture_output=True, text=True, timeout=120)
-                return (cwd, args, p.returncode, (p.stdout + p.stderr)[-1500:], time.time() - t0)
+                full = p.stdout + p.stderr
+                tb = "Traceback" in full or "Error" in full.split("\n")[-2:][0] if full.strip() else False
+                return (cwd, args, p.returncode, ("[traceback] " if tb else "") + full[-1500:], time.time() - t0)
             except subprocess.TimeoutExpired:
                 return (cwd, args, "timeout", "", 120.0)
         # the two scans write the same cache file: run them one after the other, then the
@@ -104,7 +133,13 @@ def cli_runs(ctx):
             results += list(ex.map(one, [item for item in plan if item[1][0] != "scan"]))
         for (cwd, args, rc, out, dt) in results:
             runs.append({"cwd": os.path.relpath(cwd, os.path.dirname(root)), "args": [a.replace(root, "<root>") for a in args], "rc": rc, "s": round(dt, 1)})
-            ok = rc in (0, 1) and "Traceback" not in out
+            ok = rc in (0, 1) and "Traceback" not in out and not out.startswith("[traceback]")
+            # files generated with one function of 35 (70) lines must give exit status 0 (1)
+            named = [a for a in args[1:] if "long" in os.path.basename(a)]
+            if ok and args[0] == "check" and named and len(named) == len([a for a in args[1:] if not a.startswith("--")]):
+                want = 1 if any("_70." in a for a in named) else 0
+                if rc != want:
+                    ok = False; out = "exit status %s, expected %d. " % (rc, want) + out
             if args[0] == "scan" and ok and rc != 0:
                 ok = False
             if args[0] == "scan" and ok:
